@@ -254,6 +254,31 @@ def held_reader_family():
     return progs
 
 
+
+def expired_update_family():
+    """A reader that looked up an unexpired OFFLOADED generation is overtaken by a writer that replaces it with a
+    generation whose own deadline has already passed (a replayed TTL write) and flushes: the reader's pin is refused,
+    it falls back to the current generation - which must be treated as expired by every read path (get, compare-and-
+    swap on the dead value, range scan, increment)."""
+    progs = []
+    a = {"k": "b", "id": 6, "len": 900, "n": 0}
+    b = {"k": "b", "id": 7, "len": 1200, "n": 0}
+    c = {"k": "b", "id": 8, "len": 700, "n": 0}
+    points = ["get_read", "resolve_cache", "resolve_retry", "rd_pinned", "rd_sector", "range_slot", "cas_read", "inc_read"]
+    dead = {"op": "insert", "k": 1, "v": b, "auto": False, "tsv": NOW - 8 * E9, "ttlv": 1, "wttl": True}
+    for cache in (False, True):
+        cfg = {"pers": True, "ttl": True, "lim": -1, "cache": cache, "blocks": 24}
+        init = [{"op": "insert", "k": 1, "v": a, "auto": False, "tsv": NOW - 10 * E9}, {"op": "flush"}]
+        readers = {"get": [{"op": "get", "k": 1}],
+                   "casdead": [{"op": "cas", "k": 1, "x": b, "v": c}],
+                   "caslive": [{"op": "cas", "k": 1, "x": a, "v": c}],
+                   "range": [{"op": "range", "lo": 1, "hi": 2, "lim": 3}]}
+        for rn, r in readers.items():
+            progs.append(("expupd_%s_%s" % ("c" if cache else "n", rn),
+                          {"cfg": cfg, "keys": ["k1", "k2"], "init": init, "points": points,
+                           "threads": [r, [dead, {"op": "flush"}]]}))
+    return progs
+
 def ack_flush_family():
     """A reader holds its pin on a generation that has just been superseded; two threads call flush().
     No flush() may return Ok while the retirement is still pending (FlushAckComplete)."""
